@@ -256,6 +256,11 @@ def _remove_matched_tasks(
 
     if to_kill:
         schd.kill_tasks(to_kill, warn=False)
+        # Killing holds the task (to prevent retries), but the hold must not
+        # outlive the removed task, else future instances are born held:
+        for itask in to_kill:
+            schd.pool.tasks_to_hold.discard((itask.tdef.name, itask.point))
+        schd.workflow_db_mgr.put_tasks_to_hold(schd.pool.tasks_to_hold)
 
     if removed:
         tasks_str_list = []
